@@ -23,7 +23,7 @@ import (
 	"pgregory.net/rapid"
 )
 
-func TestMain(m *testing.M)    { vh.Main(m) }
+func TestMain(m *testing.M)   { vh.Main(m) }
 func TestReplay(t *testing.T) { vh.Replay(t) }
 func TestCorpus(t *testing.T) { vh.Corpus(t) }
 
@@ -283,7 +283,7 @@ func TestExhaustiveShort(t *testing.T) {
 	}
 	add := func(b []byte) bool {
 		batch = append(batch, append([]byte(nil), b...))
-		if sample == nil && len(b) == L && b[0] == 0x82 {
+		if sample == nil && len(b) == L+1 && b[1] == 0x41 {
 			sample = InputCase{Input: append([]byte(nil), b...)}
 		}
 		if len(batch) >= 4096 {
@@ -299,8 +299,8 @@ func TestExhaustiveShort(t *testing.T) {
 		if (len(buf) >= 2 || shard == 0) && !add(buf) {
 			return false
 		}
-		if len(buf) == L {
-			return true
+		if len(buf) == L && buf[0] != 0xa2 || len(buf) == L+1 {
+			return true // strings that start a two-pair map go one symbol further: a2 k v k v
 		}
 		for i := 0; i < A; i++ {
 			if len(buf) == 1 && (bytes.IndexByte(alphabet, buf[0])*A+i)%shards != shard {
@@ -318,7 +318,7 @@ func TestExhaustiveShort(t *testing.T) {
 	ok := rec() && flush()
 	vh.Bulk("short-exhaustive", st.n, st.nt, st.classes, sample)
 	if ok && complete {
-		vh.Exhaustive("short-exhaustive", fmt.Sprintf("all byte strings of length 0..%d over the %d-byte alphabet %x (every supported head class, reserved/indefinite additional information, other major types, content bytes); this process: shard %d of %d by the first two symbols, %d strings", L, A, alphabet, shard, shards, st.n))
+		vh.Exhaustive("short-exhaustive", fmt.Sprintf("all byte strings of length 0..%d, and all of length %d beginning with a2 (two-pair map), over the %d-byte alphabet %x (every supported head class, reserved/indefinite additional information, other major types, content bytes); this process: shard %d of %d by the first two symbols, %d strings", L, L+1, A, alphabet, shard, shards, st.n))
 	}
 }
 
